@@ -459,7 +459,8 @@ def replay(grog, history, opts, scratch_root, literal_clean=True):
                         note(i, "decision", t=t, model="hit", real="no hit event", why=act["why"][t], **ctx)
                     if d in ("skipped", "unselected") and t in looked:
                         note(i, "decision", t=t, model=d, real="target was looked up", **ctx)
-                    if d in ("exec-ok", "exec-fail") and t in hits:
+                    if d in ("exec-ok", "exec-fail") and t in hits and "rerun-for-dependant" not in act["why"][t]:
+                        # (a minimal-mode hit that is re-run in place for an executing dependant has both a hit event and a command)
                         note(i, "decision", t=t, model=d, real="hit", why=act["why"][t], **ctx)
                 for e in events:
                     if e.get("k") == "t.lookup":
